@@ -1141,13 +1141,14 @@ impl TypedExpr {
                     bindings.push((param.name.clone(), arg));
                     env.pop();
                 }
-                env.push();
+                // The callee only sees the top level scope (the constants) and its own parameters, but
+                // not the local variables of the caller:
+                let mut fn_env = Env(vec![env.0[0].clone()]);
+                fn_env.push();
                 for (var, binding) in bindings {
-                    env.let_in_current_scope(var.clone(), binding);
+                    fn_env.let_in_current_scope(var.clone(), binding);
                 }
-                let body = compile_block(&fn_def.body, prg, env, circuit);
-                env.pop();
-                body
+                compile_block(&fn_def.body, prg, &mut fn_env, circuit)
             }
             ExprEnum::BuiltInFnCall(BuiltInFnCall::Join {
                 join_ty,
